@@ -9,6 +9,7 @@ NOTE = ("trusted base: the carrier stub (in-memory model of grpc-go's bidirectio
 CHECKS = {
  "C01": ("exploration", "seeded search over configurations x workloads x fault placements x schedules; every run compares, per RPC and direction, what was received with what was submitted (prefix, byte equality, completeness at normal end)", "6 C01"),
  "C02": ("exploration", "seeded search over handler header/trailer/status scripts, metadata and call-option combinations and caller read orders x schedules; a reference model of the gRPC metadata/status contract is compared with what the caller and handler observed, including trailers read with no scheduling step after the terminal result", "6 C02"),
+ "C03": ("exploration", "seeded search over bystander workloads x disturber kinds (handler error, unknown/malformed method, refusal after shutdown, cancel, expiry, never-reading caller/handler, invalid strings) x relative timings (free-running or gated) x schedules; the disturbance is left to settle to final quiescence, then bystanders must finish as planned, the tunnel must be up, a fresh RPC must succeed", "6 C03"),
  "C04": ("fault_enumeration", "for seeded baselines every termination cause is injected at every frame boundary (thorough) or a stratified sample (quick), each run driven to final quiescence with all timers fired; oracles: nothing still blocked, Done/Err, serving calls returned, in-flight calls non-OK, late RPCs fail at once", "6 C04"),
  "C07": ("fault_enumeration", "for seeded baselines the RPC of interest is cancelled at every frame boundary (thorough) or a stratified sample (quick), plus a variant that holds back all delivery towards the caller, plus virtual-time deadlines; oracles: exactly one legal outcome, handler released, bystanders and a fresh RPC unaffected", "6 C07"),
  "C13": ("exploration", "every frame of every explored run (message-flow, teardown, metadata families) is fed, at emission and at delivery, to a protocol automaton written from tunnel.proto (appendix A)", "6 C13, appendix A"),
